@@ -44,7 +44,29 @@ class C09(C.ProgramDiff):
 
     def decode(self, src):
         case = super().decode(src)
-        if src.n(8) == 5:
+        sel = src.n(8)
+        if sel == 4:
+            # a meta-call written inline as an operand of a control construct: once(G) / call(G) / findall as the left or
+            # right operand of ';', as condition, then or else branch, under negation
+            clauses = list(case['clauses'])
+            X, Y = ('v', 'K1'), ('v', 'K2')
+            unary = [h[1] for h, _ in clauses if h[0] == 'f' and len(h[2]) == 1 and h[1] not in ('do', 'do1')]
+            pa = src.pick(unary) if unary else 'w1'
+            pb = src.pick(unary) if unary else 'w1'
+            ga, gb = ('f', pa, (X,)), ('f', pb, (X,))
+            m = src.pick([('f', 'once', (ga,)), ('f', 'call', (ga,)), ('f', 'call', (('a', pa), X)), ('f', 'findall', (X, ga, Y))])
+            mc, b = ('call', m), ('call', gb)
+            body = src.pick([(';', mc, b), (';', b, mc), (';', ('->', mc, ('true',)), b), (';', ('->', b, mc), ('call', ('f', '=', (X, ('a', 'none'))))),
+                             (';', (',', mc, ('true',)), b), ('not', mc), (',', (';', mc, b), ('call', ('f', '=', (Y, Y)))),
+                             (';', ('->', ('call', ('f', '=', (X, ('a', 'a')))), mc), mc)])
+            extra = [(('f', 'mo', (X, Y)), body), (('f', 'w1', (('a', 'a'),)), ('true',)), (('f', 'w1', (('a', 'b'),)), ('true',))]
+            case['clauses'] = clauses + extra
+            case['text'] = gen.program_text(case['clauses'])
+            case.pop('split', None)
+            Q0, Q1 = gen.QVARS[0], gen.QVARS[1]
+            case['queries'] = [('f', 'mo', (Q0, Q1)), ('f', 'mo', (('a', 'a'), Q1)), ('f', 'do', (('f', 'mo', (Q0, Q1)),))]
+            return case
+        if sel == 5:
             # a predicate whose definition is combined from two scripts, the earlier part committing with a cut: the
             # meta-call must go on with the later part exactly as the plain call does
             clauses = list(case['clauses'])
